@@ -267,15 +267,14 @@ def run_queue(ctx, quick):
                                 "observations": n_obs, "final": pm[0][-1].get("k"), "end": pm[1]})
         if not agree:
             mism.append(dict(desc(c), first_difference=first_diff_obs(io, mo)))
-            if verdict is not None and verdict[0] != SIG_SHUTDOWN:
+            if verdict is not None:
                 ofail.append((verdict, c))
         elif verdict is not None:
-            if verdict[0] == SIG_SHUTDOWN:
-                known.append((verdict, c))
-            else:
-                # machine and code agree on a behaviour the property oracle rejects: the machine's theorems say this cannot happen
-                mism.append(dict(desc(c), first_difference="machine and code agree, property oracle rejects: " + verdict[1]))
-                ofail.append((verdict, c))
+            # machine and code agree on a behaviour the property oracle rejects: the machine's theorems say this cannot happen
+            mism.append(dict(desc(c), first_difference="machine and code agree, property oracle rejects: " + verdict[1]))
+            ofail.append((verdict, c))
+        if verdict is not None and verdict[0] == SIG_SHUTDOWN:
+            known.append((verdict, c))
     ctx.cov["queue_micro"] = {
         "evaluations": len(cases), "corpus_cases": ncorp, "distinct_nontrivial": len(nontrivial), "schedule_points_compared": units,
         "rule": "non-trivial = at least one proxy was created, some proxy blocked in the timed wait and more than 20 observations; after every "
@@ -292,11 +291,6 @@ def run_queue(ctx, quick):
                         "separate steps and the theorems cover every finer interleaving); mutex and condition variable are simulated with "
                         "pthread semantics (any waiter may be woken, time-outs and spurious wake-ups at any moment)",
                         "finalize is called only after every submitted task was handed back (F_Set guard); io_worker_max >= 1"]
-    if known and not mism and pr["ok"]:
-        (sig, why), c = known[0]
-        ctx.violation(SIG_SHUTDOWN, "qthread_finalize hangs: " + why,
-                      {"failing_input": desc(c), "reason": why, "cases_in_this_run": len(known),
-                       "model": "Io/QueueMicro.v agrees (ioq_shutdown_terminates_refuted)", "proposed_fix": "docs/proposed_fixes/C20-shutdown-proxy-exit-no-decrement.diff"})
     if not mism and pr["ok"]:
         return
     what = ("job queue / proxies: real code and micro-step machine disagree (%d cases, first: %s)" % (len(mism), mism[0]["case"])) if mism else \
@@ -305,14 +299,15 @@ def run_queue(ctx, quick):
         # search: the oracle over the whole batch (agreeing cases included)
         for c, io in zip(cases, iout):
             v = oracle(c, io)
-            if v is not None and v[0] != SIG_SHUTDOWN:
+            if v is not None:
                 ofail.append((v, c))
                 break
     if ofail:
         # prefer the shortest failing schedule
         ofail.sort(key=lambda x: len(x[1]["sched"]))
         (cls, why), c = ofail[0]
-        ctx.violation("queue:" + cls, what + "; failing input: " + why,
+        # the class of the fixed defect aa38ba9 keeps the signature it was reported under
+        ctx.violation(SIG_SHUTDOWN if cls == SIG_SHUTDOWN else "queue:" + cls, what + "; failing input: " + why,
                       {"failing_input": desc(c), "reason": why, "first_mismatch": mism[0] if mism else None, "coq_log": pr["log"][-1500:]})
     else:
         ctx.violation("queue-broken", what, {"theorem_or_correspondence": ("real io.c queue/proxy code != Io/QueueMicro machine on " + mism[0]["case"])
